@@ -62,14 +62,15 @@ where
         // elementary summands: (deg, kind) kind 0: R at deg; 1: R -u-> R from deg to deg+1; 2: R -c-> R
         let mut ranks = vec![0usize; len + 1];
         let mut pairs: Vec<(usize, usize, usize, R::Ref)> = vec![]; // (deg, src idx, tgt idx, coeff)
-        let nsum = 2 + rng.below(14) as usize;
+        // size is a knob: one run in four is large enough for the parallel pivot phase to matter
+        let nsum = if rng.chance(1, 4) { 12 + rng.below(30) as usize } else { 2 + rng.below(14) as usize };
         for _ in 0..nsum {
             let kind = rng.below(5);
             let d = rng.below(len as u64 + 1) as usize;
             if kind == 0 || d == len {
                 ranks[d] += 1;
             } else {
-                let coeff = if kind <= 3 { R::ref_from_json(&R::gen(rng, 2)) } else { R::ref_from_json(&R::gen(rng, 3)) };
+                let coeff = if kind <= 2 { R::ref_from_json(&R::gen(rng, 2)) } else { R::ref_from_json(&R::gen(rng, 3)) };
                 if coeff.is_zero() {
                     ranks[d] += 1;
                     continue;
@@ -90,7 +91,7 @@ where
         };
         let mut ps = vec![];
         for i in 0..=len {
-            let ops = if rng.chance(1, 6) { 0 } else { (ranks[i] as u64 * (1 + rng.below(3)) / 2) as usize };
+            let ops = if rng.chance(1, 6) { 0 } else if rng.chance(1, 3) { (ranks[i] as u64 * (2 + rng.below(3))) as usize } else { (ranks[i] as u64 * (1 + rng.below(3)) / 2) as usize };
             ps.push(unimodular::<R::Ref>(rng, ranks[i], ops, &small));
         }
         let ds: Vec<DM<R::Ref>> = (0..len).map(|i| ps[i + 1].0.mul(&ds[i]).mul(&ps[i].1)).collect();
